@@ -16,7 +16,6 @@ structure YMArgs (a : Args) : Prop where
   valid : a.dtstart.Valid
   byweekno : a.byweekno = none
   byeaster : a.byeaster = none
-  bysetpos : a.bysetpos = none
   monthday_nz : ∀ x ∈ a.bymonthday.getD [], x ≠ 0
   plain : ∀ w ∈ a.byweekday.getD [], w.2 = 0
 
@@ -26,7 +25,7 @@ variable {a : Args} {r : Rule}
 abbrev ymRuleOf (a : Args) (bh bm bs : Option (List Int)) : Rule :=
   { freq := a.freq, interval := a.interval, wkst := a.wkst.getD 0,
     dtstart := { a.dtstart with us := 0 }, tz := a.tz, count := a.count, untilDT := a.untilDT,
-    bysetpos := none, bymonth := bymonthOf a, bymonthday := bymonthdayOf a,
+    bysetpos := a.bysetpos, bymonth := bymonthOf a, bymonthday := bymonthdayOf a,
     bynmonthday := bynmonthdayOf a, byyearday := a.byyearday.map sortedSet,
     byeaster := none, byweekno := none,
     byweekday := byweekdayOf a, bynweekday := bynweekdayOf a,
@@ -39,8 +38,8 @@ theorem ym_rule (ya : YMArgs a) (h : construct a = .ok r) : ∃ bh bm bs, r = ym
   obtain ⟨sp, bh, bm, bs, ts, h1, h2, h3, h4, h5, rfl⟩ := construct_ok a r h
   dsimp only at hts
   subst hts
-  simp only [normBysetpos, ya.bysetpos] at h1
-  injection h1 with h1; subst h1
+  have hsp := (normBysetpos_ok a sp h1).1
+  subst hsp
   exact ⟨bh, bm, bs, by simp [ymRuleOf, ya.byweekno, ya.byeaster]⟩
 
 theorem ym_cuts (ya : YMArgs a) (h : construct a = .ok r) : CutsAgree a r := by
